@@ -19,8 +19,10 @@ Init == l = 1 /\ s = Init0 /\ found = <<>>
 Apply(r) ==
   LET ev == r.ev IN
   CASE ev = "reset" -> Init0
-    [] ev = "open" -> OpenCall(s, r.e, r.c, r.host, r.port)
-    [] ev = "open_poll" -> IF r.res = "ok" THEN Created(s, r.e, r.h, r.id, "", 0, "req") ELSE s
+    [] ev = "open" -> OpenCall(s, r.e, r.c, r.host, r.port, IF Len(r.draws) > 0 THEN r.draws[Len(r.draws)] ELSE 0)
+    [] ev = "open_poll" -> IF r.res = "ok" THEN Opened(s, r.e, r.c, r.h, r.id)
+                           ELSE IF r.res \in {"rejected", "closed"} THEN OpenFailed(s, r.e, r.c)
+                           ELSE IF Len(r.draws) > 0 THEN OpenRetry(s, r.e, r.c, r.draws[Len(r.draws)]) ELSE s
     [] ev = "accept" -> IF r.res = "ok" THEN Accepted(s, r.e, r.h, r.id, r.host, r.port) ELSE s
     [] ev = "write" -> Wrote(s, r.e, r.h, r.res, r.n)
     [] ev = "read" -> IF r.res = "data" THEN ReadData(s, r.e, r.h, r.n, r.w, r.off, r.okrun)
@@ -38,7 +40,7 @@ Apply(r) ==
     (* anything that ends or disturbs the connection: the clauses about a healthy connection stop applying *)
     [] ev \in {"inject", "take"} -> Adversary(s)
     [] ev \in {"fault", "drop_mux", "cancel", "panic", "hang"} -> Unsound(s)
-    [] ev = "task" -> IF r.res # "pending" THEN Unsound(s) ELSE s
+    [] ev = "task" -> IF r.res # "pending" THEN TaskEnded(s, r.e) ELSE s
     [] ev = "quiesce" -> IF Fld(r, "lazy", FALSE) THEN s ELSE Quiescent(s)
     [] OTHER -> s
 
@@ -46,7 +48,10 @@ Step ==
   /\ l <= Len(Rec)
   /\ LET r == Rec[l]
          raw == Apply(r)
-         t == IF r.ev = "reset" /\ Fld(r, "real", 2) # 2 THEN Adversary(raw) ELSE raw
+         t0 == IF r.ev = "reset" /\ Fld(r, "real", 2) # 2 THEN Adversary(raw) ELSE raw
+         (* C08: an operation of an endpoint whose connection task has ended does not stay pending *)
+         t == IF r.ev \in {"open", "open_poll", "accept", "write", "read", "dg_get", "bind", "bind_poll", "next_bind"} /\ "res" \in DOMAIN r
+              THEN Completes(t0, r.e, r.res) ELSE t0
          new == t.viol \ s.viol
      IN /\ s' = t
         /\ found' = IF new = {} THEN found ELSE Append(found, [line |-> l, viol |-> new])
